@@ -5,7 +5,8 @@ use rand::{Rng, SeedableRng};
 use rand_chacha::ChaCha8Rng;
 use std::borrow::Cow;
 use std::collections::{HashMap, HashSet};
-use text_utils::corrupt::{edit_word, DeleteEdits, InsertEdits, ReplaceEdits, SwapEdits};
+use text_utils::corrupt::{edit_word, CanEdit, DeleteEdits, InsertEdits, ReplaceEdits, SwapEdits};
+use text_utils::unicode::CharString;
 
 const FROZEN: &str = "z";
 
@@ -14,6 +15,41 @@ fn can_delete(s: &str) -> bool {
 }
 fn can_swap(a: &str, b: &str) -> bool {
     a != b && a != FROZEN && b != FROZEN
+}
+
+/// the swap predicate handed to `edit_word`: the crate's `SwapEdits`, or (odd seeds) an own implementation of the public
+/// trait that gives the same answers for every position that has a right neighbour and ALSO says yes for positions
+/// that have none: `edit_word` must not depend on the predicate to stay inside the word
+enum Swap {
+    Crate(SwapEdits),
+    Own,
+}
+impl CanEdit for Swap {
+    fn can_edit(&self, cs: &CharString, idx: &usize) -> bool {
+        match self {
+            Swap::Crate(s) => s.can_edit(cs, idx),
+            Swap::Own => match (cs.get(*idx), cs.get(idx + 1)) {
+                (Some(a), Some(b)) => can_swap(a, b),
+                _ => true,
+            },
+        }
+    }
+}
+/// likewise for deletions: yes for every position outside the word
+enum Del {
+    Crate(DeleteEdits),
+    Own(bool),
+}
+impl CanEdit for Del {
+    fn can_edit(&self, cs: &CharString, idx: &usize) -> bool {
+        match self {
+            Del::Crate(d) => d.can_edit(cs, idx),
+            Del::Own(full) => match cs.get(*idx) {
+                Some(s) => (*full || cs.len() > 1) && can_delete(s),
+                None => true,
+            },
+        }
+    }
 }
 
 type InsTbl = Vec<((String, String), Vec<String>)>;
@@ -37,8 +73,9 @@ fn run(word: &str, g: bool, seed: u64, cfg: &Cfg, excl: &[usize]) -> (String, Ve
             .map(|((a, b, c), es)| ((Cow::Owned(a.clone()), Cow::Owned(b.clone()), Cow::Owned(c.clone())), (es.clone(), vec![1.0; es.len()])))
             .collect::<HashMap<_, _>>(),
     });
-    let del = cfg.del.map(|full| DeleteEdits { full_delete: full, can_delete: can_delete as fn(&str) -> bool });
-    let sw = if cfg.swap { Some(SwapEdits { can_swap: can_swap as fn(&str, &str) -> bool }) } else { None };
+    let own = seed % 2 == 1;
+    let del = cfg.del.map(|full| if own { Del::Own(full) } else { Del::Crate(DeleteEdits { full_delete: full, can_delete: can_delete as fn(&str) -> bool }) });
+    let sw = if cfg.swap { Some(if own { Swap::Own } else { Swap::Crate(SwapEdits { can_swap: can_swap as fn(&str, &str) -> bool }) }) } else { None };
     let ex: HashSet<usize> = excl.iter().copied().collect();
     let (w, e) = edit_word(word, g, &mut rng, ins.as_ref(), del.as_ref(), rep.as_ref(), sw.as_ref(), Some(ex));
     let mut e: Vec<usize> = e.into_iter().collect();
